@@ -32,7 +32,7 @@ class Arr:
     """Symbolic array.  dims: tuple of labels (None = broadcast axis).  mask: pending boolean
     selection (Poly) from a masked read.  unit: unit tag (Poly) or None when not tracked.
     The value semantics of a Quantity is "the physical quantity" (value * unit atoms)."""
-    __slots__ = ('dims', 'poly', 'mask', 'unit', 'fresh', 'dt', 'xr', 'conv', 'view_src')
+    __slots__ = ('dims', 'poly', 'mask', 'unit', 'fresh', 'dt', 'xr', 'conv', 'view_src', 'arr0')
 
     def __init__(self, dims, poly, mask=None, unit=None, fresh=False, dt=None):
         self.dims = tuple(dims)
@@ -48,6 +48,8 @@ class Arr:
         self.conv = ()
         # (subscript expression, {name: id of its value then}) when this value is a numpy *view* obtained by basic indexing: a store into it writes through
         self.view_src = None
+        # a 0-d *array* (np.asarray of a number): the same value as the number, but not a scalar for np.isscalar
+        self.arr0 = False
 
     @property
     def ndim(self):
